@@ -584,3 +584,54 @@ def _s_scalar_agg(what):
 for _w in ("mean", "median"):
     if ("series", _w) not in _M2:
         _M2[("series", _w)] = _s_scalar_agg(_w)
+
+
+def _frame_from_dict(I, data, kwargs):
+    """pd.DataFrame({...}): an opaque frame that remembers its columns; to_csv / to_pickle on it are recorded ghost events"""
+    o = Opaque("DataFrame(columns)", prov=("frame-from-dict", data))
+    o.setattr_ok = True
+    o.attrs = {}
+
+    def to_csv(I2, recv, a, kw):
+        I2.ctx.trace.append(_Event(recv, "to_csv", list(a), dict(kw), None, getattr(I2.ctx, "loop_k", None)))
+        return None
+    o.opaque_methods = {"to_csv": to_csv}
+    return o
+
+
+_prev_pd_dataframe = pd_dataframe
+
+
+@lib("pandas.DataFrame")
+def pd_dataframe2(I, args, kwargs):
+    data = arg(args, kwargs, 0, "data")
+    if isinstance(data, SDict) and len(args) + len(kwargs) == 1:
+        return _frame_from_dict(I, data, kwargs)
+    return _prev_pd_dataframe(I, args, kwargs)
+
+
+def _s_dropna(I, recv, args, kwargs):
+    """Series.dropna(): a NEW series holding the non-missing values in order (length and values unknown here)"""
+    n = I.ctx.fresh_int("n_notna")
+    I.ctx.assume(And(n >= 0, n <= to_z3(recv.values.len)))
+    f = I.ctx.fresh_fun("dropna", z3.IntSort(), z3.RealSort())
+    USED.add("Series.dropna(): new series, values not modelled")
+    return SSeries(SArr((n,), lambda i: I.ctx.fresh_fun("dropna_label", z3.IntSort(), z3.IntSort())(to_z3(i)), "int", "Int64Index"),
+                   SArr((n,), lambda i: f(to_z3(i)), "real", "ndarray"), recv.name)
+
+
+def _s_all_any(which):
+    def m(I, recv, args, kwargs):
+        from .libmodels import _all, _any
+        return (_all if which == "all" else _any)(I, [recv.values], {})
+    return m
+
+
+_M2[("series", "dropna")] = _s_dropna
+_M2[("series", "all")] = _s_all_any("all")
+_M2[("series", "any")] = _s_all_any("any")
+
+
+for _w in ("min", "max", "sum", "std"):
+    if ("series", _w) not in _M2:
+        _M2[("series", _w)] = _s_scalar_agg(_w)
